@@ -223,7 +223,14 @@ CHECK_DEADLOCK FALSE
 		if c.Thorough {
 			ladderDepth = 400
 		}
-		return ladderCheck(c, ladderDepth)
+		if err := ladderCheck(c, ladderDepth); err != nil {
+			return err
+		}
+		nbp := 70000
+		if c.Thorough {
+			nbp = 300000
+		}
+		return manyBPCheck(c, nbp)
 	})
 }
 
